@@ -11,6 +11,11 @@ package flags
 //@   modifies cf.m, elems(cf.m)
 //@   ensures [C14] [C02] @wf: wfMapping(cf.m)
 //@   ensures [C14] @kept: result != nil ==> cf.m == old(cf.m)
+//@   callback Atoi=0
+//@   ensures [C01] [C02] @parsed: result == nil ==> len(cf.m) == old(len(cf.m)) + 1 && tlen() >= old(tlen()) + 1 && tlen() <= old(tlen()) + 2
+//@        && cf.m[old(len(cf.m))].Level == tres("Atoi", old(tlen()))
+//@        && cf.m[old(len(cf.m))].Suffix == (tlen() == old(tlen()) + 1 ? 0 : tres("Atoi", old(tlen()) + 1))
+//@   ensures [C01] [C02] @prefix: result == nil ==> (forall i int :: {cf.m[i]} 0 <= i && i < old(len(cf.m)) ==> cf.m[i] == old(cf.m[i]))
 //
 // Partition: the reporting window is the --from/--to window clipped to the journal's own period; it is
 // handed to date.NewPartition, which requires a start date other than the zero time (it panics otherwise).
